@@ -942,6 +942,11 @@ func (e *Engine) execInstr(st *State, instr ssa.Instruction) {
 		e.next(st, in)
 	case *ssa.Select:
 		e.cancelCheckSelect(st, in)
+		if in.Blocking && len(st.frames) == 1 {
+			// "atcall <select> before: ..." fires where the function may block in a select
+			e.hookArgs = nil
+			e.runHooks(st, fr, in, "<select>", "before")
+		}
 		e.selectOp(st, in)
 	case *ssa.Send:
 		e.abstracted["channel send (no effect modelled)"] = true
